@@ -206,9 +206,9 @@ def chk_hashable(rec, rnd, tier):
 
 
 def shards(tier, seed):
-    n = 4 if tier == "quick" else 16
-    out = [{"kind": "transpose", "seed": seed, "part": i, "n": 40 if tier == "quick" else 400, "tier": tier} for i in range(n)]
-    out += [{"kind": k, "seed": seed, "part": 0, "tier": tier} for k in ("ints", "align", "hashable")]
+    n = 4 if tier == "quick" else 64
+    out = [{"kind": "transpose", "seed": seed, "part": i, "n": 40 if tier == "quick" else 600, "tier": tier} for i in range(n)]
+    out += [{"kind": k, "seed": seed, "part": p, "tier": tier} for k in ("ints", "align", "hashable") for p in range(1 if tier == "quick" else 12)]
     return out
 
 
